@@ -185,8 +185,12 @@ def prefix(ty):
     return [[0, 3], [0, 1000003], [1, 77]], 12345
 
 
-def exhaustive(depth, ty, rng=None, sample=None):
+def exhaustive(depth, ty, rng=None, sample=None, order=None):
+    """`order`: a permutation of the prefix (which leaf sits at tape position 0 / is created first:
+    the constant record carries index 0 like the first variable of the tape)"""
     pre, c = prefix(ty)
+    if order is not None:
+        pre = [pre[i] for i in order]
     n0 = len(pre)
 
     def rec(body, d):
@@ -225,6 +229,17 @@ def float_bodies(tier, rng):
             for ins in all_ins(3, None, k):
                 if ins != [6, []]:
                     yield pre + [ins]
+    # the sign of zero: Neg with a tape is `0 - x` (+0.0 at x = +0.0, where plain -x is -0.0); every
+    # instruction applied to the negation of a zero / non-zero variable, in particular every pole
+    # (x / -0, (-0)^-1, div_swapped, the caller-supplied 1/x and x/y): the harness compares numbers on
+    # the pole-free domain only (prog.rs in_pole_free_domain); found by the thorough tier in session 3
+    for x in ([0, 0], [1, 0], [-3, -1]):
+        for y, c, k in (([0, 0], [2, 0], [-1, 0]), ([3, 0], [0, 0], [2, 0])):
+            for neg_of in (0, 1):
+                pre = [[0, x], [0, y], [1, c], [5, 0, neg_of]]
+                for ins in all_ins(4, None, k):
+                    if ins != [6, []]:
+                        yield pre + [ins]
     for _ in range(4000 if quick else 60000):
         body = [[0, rng.choice(FLOAT_ALPHABET)], [0, rng.choice(FLOAT_ALPHABET)], [1, rng.choice(FLOAT_ALPHABET)]]
         for _ in range(2):
@@ -242,6 +257,10 @@ def gen(tier, rng):
     #     both element types; every pair of instructions (Fp; thorough: Rat too)
     for ty in (0, 1):
         yield from exhaustive(1, ty)
+        # the same with the leaves created in every other order (constant first / in the middle, x1
+        # at tape position 0): coincidences between a constant's index 0 and tape position 0
+        for order in ([2, 0, 1], [0, 2, 1], [1, 0, 2], [2, 1, 0], [1, 2, 0]):
+            yield from exhaustive(1, ty, order=order)
     if quick:
         yield from exhaustive(2, 1)
         yield from exhaustive(2, 0, rng, sample=4000)
@@ -330,5 +349,6 @@ def distribution(lines):
 ASSUMPTIONS = [
     "element types of the correspondence are exact (Rat, Fp with total division); sin/cos/exp/ln/sqrt/pow are the fixed polynomial stand-ins of Model/Num.v on both sides, their analytic meaning enters only in C04_formal_is_true_derivative (Coq Reals)",
     "float rounding, NaN / infinite weights are outside the model",
+    "float oracle: +0.0 and -0.0 are the same number (Neg with a tape is 0 - x); numbers are compared with the plain f64 run on the pole-free domain only (not at / downstream of a division by zero or a negative power of zero, where the sign of a zero becomes observable): harness/src/c04/prog.rs in_pole_free_domain",
 ]
 TRUSTED = ["harness/src/c04.rs + c04/prog.rs: one interpreter per ownership form; the caller-supplied function table is duplicated in Model/AD.v (user1_table, user2_table)"]
